@@ -68,6 +68,22 @@ class Ob:
         return d
 
 
+def contains(expr, sub):
+    """does the z3 term `expr` mention the term `sub` (provenance: 'computed from')"""
+    if not z3.is_expr(expr):
+        return False
+    seen, stack = set(), [expr]
+    while stack:
+        x = stack.pop()
+        if x.get_id() in seen:
+            continue
+        seen.add(x.get_id())
+        if z3.eq(x, sub):
+            return True
+        stack.extend(x.children())
+    return False
+
+
 def model_str(m):
     if m is None:
         return ""
@@ -97,6 +113,8 @@ def c12(fns, tier, env):
     out.append(kernel_resolve_timestamp(fns))
     out.append(kernel_observe_published(fns))
     out += sites_c12(fns)
+    if tier == "thorough":
+        out.append(scan_iteration(fns))   # recovery folds every indexed timestamp into the clock before the index is updated
     return finalize(out, env)
 
 
@@ -161,7 +179,7 @@ def kernel_observe(fns, lb):
             ob.need(it, p.pc, z3.UGE(p.extra["acur"], ts), "shard >= observed timestamp on return")
         else:
             ob.need(it, p.pc, ts == MAX64, "returning without touching the shard only for u64::MAX")
-    return ob.result(it, witness="c12_observe")
+    return ob.result(it, witness=[("u64::MAX", "c12_pinned_max_after_restart"), ("", "c12_observe")])
 
 
 def lemma_clock_composition():
@@ -231,6 +249,7 @@ def c13(fns, tier, env):
     lb = 3 if tier == "quick" else 5
     out = [kernel_reserve_memory(fns, lb), kernel_reservation_drop(fns), kernel_release_memory(fns), kernel_record_size(fns)]
     out += sites_c13(fns, tier)
+    out.append(scan_iteration(fns))
     return finalize(out, env)
 
 
@@ -679,7 +698,7 @@ def site_update_ttl(fns):
 # ============================================================================ C08 sites + kernel
 def c08(fns, tier, env):
     lb = 3 if tier == "quick" else 5
-    out = [kernel_acquire_extent(fns, lb), site_load_value(fns), site_prepare_deferred(fns), site_cache_lookups_tagged(fns)]
+    out = [kernel_acquire_extent(fns, lb), site_load_value(fns), site_prepare_deferred(fns), site_cache_lookups_tagged(fns), site_process_deletions(fns)]
     return finalize(out, env)
 
 
@@ -789,7 +808,7 @@ def site_prepare_deferred(fns):
 
 # ============================================================================ C11
 def c11(fns, tier, env):
-    out = [kernel_ttl_expiry(fns), site_retire_expired(fns), site_update_ttl(fns)]
+    out = [kernel_ttl_expiry(fns), site_retire_expired(fns), site_update_ttl(fns), scan_iteration(fns)]
     return finalize(out, env)
 
 
@@ -959,7 +978,7 @@ def journal_entry_acceptance(fns):
 
 
 def c03(fns, tier, env):
-    return finalize([scan_iteration(fns), journal_entry_acceptance(fns)], env)
+    return finalize([scan_iteration(fns), journal_entry_acceptance(fns), site_write_batch_protocol(fns)] + io_protocol(fns), env)
 
 
 def c17(fns, tier, env):
@@ -969,7 +988,7 @@ def c17(fns, tier, env):
         d = z3.Const("data", U)
         st["env"]["_1"] = d
         st["pc"].append(it.len_of(d) == z3.BitVecVal(slot, 64))
-    out = [panic_free(fns, mir.find(fns, "::decode_slot", None), "c17_decode_slot_panic_free",
+    out = [site_drop_guard(fns), panic_free(fns, mir.find(fns, "::decode_slot", None), "c17_decode_slot_panic_free",
                       "allocation_journal::decode_slot on ANY slot contents (every value parsed out of the buffer is havocked): no arithmetic-overflow panic, "
                       "no out-of-range slice of the slot (incl. the checksum image `data[..checksum_len]`), no failing fixed-size conversion, no out-of-bounds pair access",
                       "slot length = 3 blocks (the caller's contract); one arbitrary iteration of each loop (for index in 0..count with 0 <= index < count)",
@@ -1028,6 +1047,530 @@ def site_cache_lookups_tagged(fns):
     return ob.result(it, witness="c08_stale_cache_generation")
 
 
+# ============================================================================ process_deletions: retirement protocol
+def site_process_deletions(fns):
+    f = mir.find(fns, "::process_deletions", None)
+    ob = Ob("site_process_deletions", "write_buffer::process_deletions, every path (each loop: at most one arbitrary iteration): an old generation is queued for a "
+            "retirement marker only if its successor is durable-or-deleted (C02), only after retire_extent() set RETIRED and extent_has_readers() then said no (C08); "
+            "it goes straight to release only with a durable marker; it is dropped only when it never reached the disk (sector 0); a failing retire_extents() releases "
+            "nothing and re-queues everything (C09); the second reader check guards the release (C08); DELETE_MARKER_DURABLE is stored only after retire_extents() "
+            "returned Ok", "loops unrolled once; calls havocked", f)
+    dbg = f.debug
+    need = ["retries", "marker_writes", "release_operations", "marker_extents", "releasable"]
+    for n in need:
+        if n not in dbg:
+            raise mir.MirError("local `%s` not found in process_deletions" % n)
+    it = Interp(f, loop_bound=1, pure=PURE, max_paths=30000)
+    consts = {}
+
+    def vec_of(it_, st, name):
+        return st["env"].get(dbg[name])
+    npaths = marked = 0
+    for p in it.run():
+        ob.paths += 1
+        if p.status == "truncated":
+            ob.truncated += 1
+        if p.status not in ("return", "truncated"):
+            continue
+        env = p.env
+        ident = {n: env.get(dbg[n]) for n in need}
+
+        def is_vec(term, name):
+            v = ident.get(name)
+            return v is not None and z3.is_expr(term) and z3.is_expr(v) and z3.eq(z3.simplify(it.as_u(term)), z3.simplify(it.as_u(v)))
+        pushes = events(p, "Vec::push")
+        succ = events(p, "Record::successor_is_durable_or_deleted")
+        ret_ext = events(p, "Record::retire_extent")
+        readers = events(p, "Record::extent_has_readers")
+        retire = events(p, "DiskIO::retire_extents")
+        stores = [e for e in events(p, "Atomic::store") if z3.is_bv(e.args[1]) and e.args[1].size() == 32]
+        groups = events(p, "release_retirement_group")
+        for e in ret_ext:
+            prior = [s_ for s_ in succ if idx_of(p, s_) < idx_of(p, e)]
+            ob.must_hold(bool(prior), "RETIRED is set only after the successor check")
+            if prior:
+                ob.need(it, e.pc, prior[-1].ret, "RETIRED is set only when the successor is durable or deleted")
+        nexts = [e for e in p.events if e.kind == "call" and e.callee.endswith("Iterator>::next")]
+
+        def in_iteration(ev_list, e):
+            """events of ev_list that belong to the same loop iteration as e (after the last next() before e)"""
+            starts = [idx_of(p, n) for n in nexts if idx_of(p, n) < idx_of(p, e)]
+            lo = max(starts) if starts else -1
+            return [x for x in ev_list if lo < idx_of(p, x) < idx_of(p, e)]
+        for e in pushes:
+            if is_vec(e.args[0], "marker_writes"):
+                marked += 1
+                s_l, r_l, h_l = in_iteration(succ, e), in_iteration(ret_ext, e), in_iteration(readers, e)
+                ob.must_hold(bool(s_l) and bool(r_l) and bool(h_l), "marker queued only after successor check, retire_extent and reader check (same entry)")
+                if s_l and r_l and h_l:
+                    s_, r_, h_ = s_l[-1], r_l[-1], h_l[-1]
+                    ob.must_hold(idx_of(p, s_) < idx_of(p, r_) < idx_of(p, h_), "order: successor check < set RETIRED < reader check < queue marker")
+                    ob.need(it, e.pc, z3.And(s_.ret, z3.Not(h_.ret)), "marker queued only for a durable successor and no reader")
+        if retire:
+            r = retire[0]
+            okp, _ = it.entails(p.pc, it.ctx.disc(it.as_u(r.ret)) == 0)
+            errp, _ = it.entails(p.pc, it.ctx.disc(it.as_u(r.ret)) != 0)
+            for e in stores:
+                ob.must_hold(idx_of(p, e) > idx_of(p, r), "DELETE_MARKER_DURABLE stored only after retire_extents returned")
+                ob.need(it, e.pc, it.ctx.disc(it.as_u(r.ret)) == 0, "DELETE_MARKER_DURABLE stored only when retire_extents returned Ok")
+            if errp:
+                ob.must_hold(not groups, "a failed retire_extents releases nothing")
+                ob.must_hold(not stores, "a failed retire_extents marks nothing durable")
+                ob.need(it, p.pc, it.ctx.disc(it.as_u(p.ret)) != 0, "a failed retire_extents is reported") if p.ret is not None else None
+        for e in pushes:
+            if is_vec(e.args[0], "releasable"):
+                prior = in_iteration(readers, e)
+                ob.must_hold(bool(prior), "release only after a reader check")
+                if prior:
+                    ob.need(it, e.pc, z3.Not(prior[-1].ret), "an extent is handed to the release step only with no reader")
+        npaths += 1
+    ob.must_hold(marked >= 1, "the marker-queueing site was reached")
+    return ob.result(it, witness=[("successor", "c02_acknowledged_value_survives")])
+
+
+# ============================================================================ process_write_batch: intent -> data -> fsync -> clear -> publish
+def site_write_batch_protocol(fns):
+    f = mir.find(fns, "::process_write_batch", None)
+    ob = Ob("site_process_write_batch_protocol", "write_buffer::process_write_batch from the point where the batch's writes are assembled (state havocked): "
+            "record.sector is stored and the in-memory value dropped ONLY on paths where the allocation-intent journal write returned Ok, then the record write "
+            "(batch_write_bytes, which fsyncs) returned Ok, then the journal clear returned Ok – in that order; reservations are marked dirty before the first device "
+            "call; on every path where one of these device calls failed the function returns failed_batch_outcome(..) and publishes no sector",
+            "every path from the write phase on; retry loop unrolled once (3 attempts need loop bound 3: thorough)", f)
+    start = None
+    for bb, st in f.blocks.items():
+        if "Vec::<(u64, bytes::Bytes)>::is_empty" in st[-1]:
+            start = bb
+    if start is None:
+        raise mir.MirError("write phase of process_write_batch not found")
+    it = Interp(f, loop_bound=1, pure=PURE, max_paths=60000)
+    published = failed = 0
+    for p in it.run(start=start):
+        ob.paths += 1
+        if p.status == "truncated":
+            ob.truncated += 1
+        if p.status not in ("return", "truncated"):
+            continue
+        J = events(p, "DiskIO::write_allocation_journal")
+        W = events(p, "DiskIO::batch_write_bytes")
+        C = events(p, "DiskIO::clear_allocation_journal")
+        D = events(p, "mark_reservation_dirty")
+        F = events(p, "failed_batch_outcome")
+        pub = [e for e in events(p, "Atomic::store") if len(e.args) > 1 and z3.is_bv(e.args[1]) and e.args[1].size() == 64] + events(p, "Record::clear_value")
+        okd = lambda e: it.ctx.disc(it.as_u(e.ret)) == 0
+        for e in pub:
+            published += 1
+            ob.must_hold(bool(W) and idx_of(p, W[-1]) < idx_of(p, e), "sector published only after the record write was issued")
+            if W:
+                ob.need(it, e.pc, okd(W[-1]), "sector published only when the (last) record write returned Ok")
+            if J:
+                ob.must_hold(idx_of(p, J[0]) < (idx_of(p, W[0]) if W else 10**9), "intent journal written before the record write")
+                ob.need(it, e.pc, okd(J[0]), "sector published only when the intent journal write returned Ok")
+                ob.must_hold(bool(C) and (not W or idx_of(p, W[-1]) < idx_of(p, C[0])) and idx_of(p, C[0]) < idx_of(p, e),
+                             "journal cleared after the record write and before the sector is published")
+                if C:
+                    ob.need(it, e.pc, okd(C[0]), "sector published only when the journal clear returned Ok")
+        for d in D:
+            first_dev = [idx_of(p, x) for x in J + W]
+            if first_dev:
+                ob.must_hold(idx_of(p, d) < min(first_dev), "reservations marked dirty before the first device call")
+        for fe in F:
+            failed += 1
+            ob.must_hold(not pub, "a failed batch publishes no sector")
+            ob.must_hold(idx_of(p, fe) == max(idx_of(p, x) for x in p.events if x.kind == "call"), "failed_batch_outcome is the last call (its outcome is returned)")
+        if p.status == "return" and not F:
+            # a path that returns without the failure handler saw no failed device call
+            for e in J + W[-1:] + C:
+                ob.need(it, p.pc, okd(e), "returning normally only when %s returned Ok" % e.callee.rsplit("::", 1)[-1])
+    ob.must_hold(published >= 1 and failed >= 1, "both the publishing and the failure paths were reached")
+    return ob.result(it, witness=None)
+
+
+# ============================================================================ C19: which worker owns which shard
+def c19(fns, tier, env):
+    return finalize([site_shard_ownership(fns), site_coordinator_liveness(fns)], env)
+
+
+def c20(fns, tier, env):
+    return finalize([site_tree_slot_store(fns)], env)
+
+
+def site_shard_ownership(fns):
+    g = mir.find(fns, "::trigger_flush", "src/storage/write_buffer.rs")
+    ob = Ob("site_trigger_flush_owner", "trigger_flush wakes, for a FULL shard, exactly worker `shard_id % worker_count` – the same residue class that "
+            "flush_worker_shards' (worker_id..S).step_by(worker_count) drains (checked textually: the MIR of flush_worker_shards builds that iterator from "
+            "WorkerContext.worker_id / worker_count)", "all paths of trigger_flush; the iterator shape of flush_worker_shards is matched on its MIR text "
+            "(z3 does not finish the symbolic remainder lemma over 64-bit vectors)", g)
+    it2 = Interp(g, loop_bound=1, pure=PURE)
+    shard = z3.BitVec("shard_id", 64)
+
+    def init2(it_, st):
+        st["env"]["_2"] = shard
+    sent = 0
+    for p in it2.run(init2):
+        ob.paths += 1
+        if p.status != "return":
+            continue
+        ts = events(p, "Sender::try_send")
+        ln = events(p, "Vec::len")
+        for e in p.events:
+            if e.kind == "call" and " as std::ops::Index<usize>>::index" in getattr(e, "raw", "") and "Sender" in getattr(e, "raw", ""):
+                sent += 1
+                ob.must_hold(len(ln) == 1, "worker count read once")
+                if ln:
+                    want = z3.simplify(z3.URem(shard, ln[0].ret))
+                    ob.must_hold(z3.eq(z3.simplify(e.args[1]), want), "the woken worker is shard_id %% worker_count")
+        if ts:
+            full = events(p, "ShardedWriteBuffer::is_full")
+            ob.must_hold(bool(full), "a flush is triggered only after the fullness check")
+            if full:
+                ob.need(it2, ts[0].pc, full[0].ret, "a flush is triggered only for a full shard")
+    ob.must_hold(sent >= 1, "the wake-up site was reached")
+    f = mir.find(fns, "::flush_worker_shards", None)
+    t = f.text
+    m = re.search(r"(_\d+) = copy \(\(\*_1\)\.0: usize\);", t)
+    m2 = re.search(r"(_\d+) = copy \(\(\*_1\)\.1: usize\);", t)
+    ob.must_hold(m is not None and m2 is not None, "flush_worker_shards reads worker_id and worker_count")
+    if m and m2:
+        ob.must_hold(re.search(r"std::ops::Range::<usize> \{ start: move %s, end: move _\d+ \}" % m.group(1), t) is not None,
+                     "flush_worker_shards' shard range starts at worker_id")
+        ob.must_hold(re.search(r"Range<usize> as Iterator>::step_by\(move _\d+, move %s\)" % m2.group(1), t) is not None,
+                     "flush_worker_shards steps by worker_count")
+    return ob.result(it2)
+
+
+# ============================================================================ small liveness / containment / reclamation obligations
+def site_coordinator_liveness(fns):
+    f = mir.find(fns, "::start_workers::{closure#1}", "src/storage/write_buffer.rs")
+    ob = Ob("site_periodic_coordinator_exits_only_on_shutdown", "the periodic flush coordinator (the thread that wakes workers every 100 ms) returns on no path other "
+            "than `shutdown == true` read at the top of its loop – a full worker queue (try_send error) or an empty shard never ends write-behind; it wakes worker w "
+            "when one of the shards (w..S).step_by(W) is non-empty, and worker 0 also for pending retirements", "all paths; loops unrolled once", f)
+    it = Interp(f, loop_bound=1, pure=PURE, max_paths=4000)
+    ret = 0
+    for p in it.run():
+        ob.paths += 1
+        if p.status == "truncated":
+            ob.truncated += 1
+        if p.status != "return":
+            continue
+        ret += 1
+        loads = [e for e in events(p, "Atomic::load") if z3.is_bool(e.ret)]
+        ob.must_hold(bool(loads), "the coordinator reads the shutdown flag")
+        if loads:
+            ob.need(it, p.pc, loads[-1].ret, "the coordinator returns only when the shutdown flag was read as true")
+            after = [e for e in p.events if e.kind == "call" and idx_of(p, e) > idx_of(p, loads[-1]) and e.callee.endswith(("try_send", "sleep"))]
+            ob.must_hold(not after, "nothing happens between seeing shutdown and returning")
+    ob.must_hold(ret >= 1, "a return path exists")
+    t = f.text
+    ob.must_hold(re.search(r"Range<usize> as Iterator>::step_by\(move _\d+, move _\d+\)", t) is not None and "Sender<FlushRequest>>::len" in t,
+                 "the coordinator inspects (w..S).step_by(number of worker channels)")
+    return ob.result(it, witness="c19_coordinator_survives_full_queue")
+
+
+def site_flush_worker_requeue(fns):
+    f = mir.find(fns, "::flush_worker_shards", None)
+    ob = Ob("site_flush_worker_shards_requeue", "flush_worker_shards: when a batch of a drained shard fails, the entries of that shard that were NOT yet attempted are "
+            "put back as well (together with the batch's own retries), so a later successful flush() cannot acknowledge data that was silently dropped; everything "
+            "collected is handed to requeue_entries", "all paths; loops unrolled once", f)
+    it = Interp(f, loop_bound=1, pure=PURE, max_paths=6000)
+    failed = 0
+    for p in it.run():
+        ob.paths += 1
+        if p.status == "truncated":
+            ob.truncated += 1
+        pw = events(p, "process_write_batch")
+        if not pw:
+            continue
+        rq = events(p, "ShardedWriteBuffer::requeue_entries")
+        for b in pw:
+            # BatchOutcome { result, retries }: the result's discriminant decides the branch
+            nxt = [e for e in p.events if e.kind == "call" and idx_of(p, e) > idx_of(p, b)]
+            ext = [e for e in nxt if "Extend<WriteEntry>>::extend" in getattr(e, "raw", "")]
+            rq_after = [e for e in rq if idx_of(p, e) > idx_of(p, b)]
+            if not rq_after:
+                continue   # path truncated before this shard was put back
+            until = idx_of(p, rq_after[0])
+            later_batches = [e for e in pw if idx_of(p, b) < idx_of(p, e) < until]
+            if later_batches:
+                continue   # a later batch of the same shard follows: this one did not fail
+            ext_here = [e for e in ext if idx_of(p, e) < until]
+            res = b.ret.fields[0] if isinstance(b.ret, mir.Tup) else it.ctx.uf("proj__0", [U], U)(it.as_u(b.ret))
+            is_err, _ = it.entails(p.pc, it.ctx.disc(it.as_u(res)) != 0)
+            if is_err:
+                failed += 1
+                ob.must_hold(len(ext_here) >= 2, "after a failed batch both the batch's retries and the not-yet-attempted rest of the shard are requeued")
+    ob.must_hold(failed >= 1, "the failed-batch path was reached")
+    return ob.result(it, witness="c09_failed_batch_keeps_rest_of_shard")
+
+
+def site_drop_guard(fns):
+    f = mir.find(fns, "::drop", "src/core/store/persistence.rs")
+    ob = Ob("site_store_drop_writes_metadata_only_when_initialized", "impl Drop for FeoxStore: the final metadata write (and every other device write of Drop) happens only "
+            "for a store that finished opening (initialized), is persistent and is not read-only – a store dropped because its open was REJECTED leaves the file "
+            "byte-identical", "all paths of Drop", f)
+    it = Interp(f, loop_bound=1, pure=PURE, max_paths=6000)
+    m_init = None
+    # FeoxStore field indices of the three flags, from the MIR of flush_all (initialized && !memory_only)
+    fa = mir.find(fns, "::flush_all", "src/core/store/persistence.rs")
+    flags = re.findall(r"copy \(\(\*_1\)\.(\d+): bool\)", fa.text)
+    ob.must_hold(len(flags) >= 2, "flag fields found")
+    self_ = z3.Const("store", U)
+
+    def init(it_, st):
+        st["env"]["_1"] = self_
+    reached = 0
+    for p in it.run(init):
+        ob.paths += 1
+        if p.status == "truncated":
+            ob.truncated += 1
+        ws = events(p, "DiskIO::write_store_metadata") + events(p, "DiskIO::write_metadata")
+        for w in ws:
+            reached += 1
+            for idx_s in flags[:1]:
+                initialized = it.ctx.uf("proj__%s" % idx_s, [U], z3.BoolSort())(self_)
+                ob.need(it, w.pc, initialized, "metadata is written in Drop only when `initialized` is set")
+            if len(flags) >= 2:
+                mem_only = it.ctx.uf("proj__%s" % flags[1], [U], z3.BoolSort())(self_)
+                ob.need(it, w.pc, z3.Not(mem_only), "metadata is written in Drop only for a persistent store")
+    ob.must_hold(reached >= 1, "the metadata write site of Drop was reached")
+    return ob.result(it, witness="c17_rejected_open_leaves_file_untouched")
+
+
+def site_tree_slot_store(fns):
+    cands = [f for n, f in fns.items() if n.endswith("::store") and "src/core/record.rs" in n and "TreeSlot" in f.header]
+    if len(cands) != 1:
+        raise mir.MirError("TreeSlot::store not found")
+    f = cands[0]
+    ob = Ob("site_tree_slot_store_defers_destruction", "TreeSlot::store: the replaced slot allocation is handed to the epoch collector (Guard::defer_destroy) on every "
+            "path where it is non-null and is never destroyed or converted to an owned pointer immediately – readers that loaded the slot under a pin keep a live "
+            "allocation", "all paths", f)
+    it = Interp(f, loop_bound=1, pure=PURE)
+    reached = 0
+    for p in it.run():
+        ob.paths += 1
+        if p.status != "return":
+            continue
+        sw = events(p, "::swap")
+        dd = events(p, "Guard::defer_destroy")
+        own = [e for e in p.events if e.kind == "call" and (e.callee.endswith("::into_owned") or "drop_in_place" in e.callee or e.callee.endswith("mem::drop"))]
+        ob.must_hold(len(sw) == 1, "one atomic swap")
+        ob.must_hold(not own, "the previous pointer is never turned into an owned value / dropped in store()")
+        nulls = events(p, "::is_null")
+        if sw and nulls:
+            isnull, _ = it.entails(p.pc, nulls[-1].ret)
+            if not isnull:
+                reached += 1
+                ob.must_hold(len(dd) == 1, "a non-null previous pointer is deferred exactly once")
+                if dd:
+                    ob.need(it, p.pc, it.as_u(dd[0].args[1]) == it.as_u(sw[0].ret), "what is deferred is the pointer that was swapped out")
+    ob.must_hold(reached >= 1, "the non-null path was reached")
+    return ob.result(it, witness="c20_tree_slot_grace_period")
+
+
+def site_evict_running_usage(fns):
+    f = mir.find(fns, "::evict_entries", "src/core/cache.rs")
+    ob = Ob("site_evict_entries_running_usage", "ClockCache::evict_entries, one arbitrary step of the sweep: after an eviction the loop's running usage equals the counter's "
+            "value AFTER the subtraction (fetch_sub's previous value minus the evicted size) – so the sweep stops as soon as the low watermark is reached and does not "
+            "go on to strip reference bits / evict referenced entries; the global counter is decremented by exactly the evicted entry's size",
+            "one arbitrary iteration of the innermost loop", f)
+    if "current_usage" not in f.debug:
+        raise mir.MirError("current_usage local not found")
+    cu = f.debug["current_usage"]
+    # innermost loop header: the block comparing i with bucket.len()
+    it = Interp(f, loop_bound=1, pure=PURE, max_paths=8000)
+    reached = 0
+    for p in it.run():
+        ob.paths += 1
+        if p.status == "truncated":
+            ob.truncated += 1
+        rem = events(p, "Vec::remove")
+        subs = [e for e in events(p, "Atomic::fetch_sub") if z3.is_bv(e.args[1]) and e.args[1].size() == 64]
+        if rem and subs:
+            reached += 1
+            # the removed entry's recorded size is what is subtracted
+            ok = False
+            for k in range(0, 8):
+                cand = it.ctx.uf("proj__%d" % k, [U], z3.BitVecSort(64))(it.as_u(rem[-1].ret))
+                okk, _ = it.entails(p.pc, subs[-1].args[1] == cand)
+                ob.queries += 1
+                ok = ok or okk
+            ob.must_hold(ok, "the counter is decremented by the evicted entry's recorded size")
+            cur = p.env.get(cu)
+            if cur is not None and z3.is_bv(cur) and len(rem) == 1:
+                ob.need(it, p.pc, cur == subs[-1].ret - subs[-1].args[1], "running usage == counter value after the subtraction")
+    ob.must_hold(reached >= 1, "the eviction site was reached")
+    return ob.result(it, witness="c16_eviction_stops_at_low_watermark")
+
+
+# ============================================================================ io.rs: journaled retirement and journal/metadata slot protocol
+IO_HINT = "src/storage/io.rs"
+
+
+def okd(it, e):
+    return it.ctx.disc(it.as_u(e.ret)) == 0
+
+
+def site_retire_extents(fns):
+    f = mir.find(fns, "::retire_extents", IO_HINT)
+    ob = Ob("site_retire_extents_protocol", "DiskIO::retire_extents, one arbitrary journal chunk: ACTIVE intent journal (write+fsync) -> retirement markers (write+fsync) -> "
+            "CLEAR journal, strictly in that order, each step only when the previous returned Ok; any failure poisons the device (poison_writes) and is returned; "
+            "Ok is returned only when every step of every chunk succeeded", "chunk loop: one arbitrary iteration", f)
+    it = Interp(f, loop_bound=1, pure=PURE)
+    reached = 0
+    for p in it.run():
+        ob.paths += 1
+        if p.status == "truncated":
+            ob.truncated += 1
+        if p.status not in ("return", "truncated"):
+            continue
+        J = events(p, "DiskIO::write_allocation_journal")
+        M = events(p, "DiskIO::retire_extents_unjournaled")
+        C = events(p, "DiskIO::clear_allocation_journal")
+        P = events(p, "DiskIO::poison_writes")
+        for m in M:
+            prior = [j for j in J if idx_of(p, j) < idx_of(p, m)]
+            ob.must_hold(bool(prior), "markers are written only after an intent journal write")
+            if prior:
+                reached += 1
+                ob.need(it, m.pc, okd(it, prior[-1]), "markers are written only when the intent journal write (incl. fsync) returned Ok")
+                ob.need(it, p.pc, it.as_u(m.args[1]) == it.as_u(prior[-1].args[1]), "markers cover exactly the journaled chunk")
+        for c in C:
+            prior = [m for m in M if idx_of(p, m) < idx_of(p, c)]
+            ob.must_hold(bool(prior), "the journal is cleared only after the marker writes")
+            if prior:
+                ob.need(it, c.pc, okd(it, prior[-1]), "the journal is cleared only when the marker writes (incl. fsync) returned Ok")
+        if p.status == "return" and p.ret is not None:
+            ret_ok, _ = it.entails(p.pc, it.ctx.disc(it.as_u(p.ret)) == 0)
+            ret_err, _ = it.entails(p.pc, it.ctx.disc(it.as_u(p.ret)) != 0)
+            if ret_ok:
+                ob.must_hold(not P, "Ok is returned only when nothing failed")
+                for e in J + M + C:
+                    ob.need(it, p.pc, okd(it, e), "Ok is returned only when %s returned Ok" % e.callee.rsplit("::", 1)[-1])
+                ob.must_hold(len(J) == len(M) == len(C), "every journaled chunk is marked and cleared")
+            elif ret_err and (J or M or C):
+                ob.must_hold(len(P) == 1, "a failed step poisons the device exactly once")
+    ob.must_hold(reached >= 1, "the marker site was reached")
+    return ob.result(it)
+
+
+def site_replay_journal(fns):
+    f = mir.find(fns, "::replay_allocation_journal", IO_HINT)
+    ob = Ob("site_replay_allocation_journal", "replay_allocation_journal: retirement markers first, journal cleared LAST and only when the markers (incl. fsync) "
+            "returned Ok – a crash during replay leaves the journal active, so replay is re-runnable", "all paths", f)
+    it = Interp(f, loop_bound=1, pure=PURE)
+    reached = 0
+    for p in it.run():
+        ob.paths += 1
+        if p.status != "return":
+            continue
+        M = events(p, "DiskIO::retire_extents_unjournaled")
+        C = events(p, "DiskIO::clear_allocation_journal")
+        for c in C:
+            reached += 1
+            ob.must_hold(len(M) == 1 and idx_of(p, M[0]) < idx_of(p, c), "clear after the marker writes")
+            if M:
+                ob.need(it, c.pc, okd(it, M[0]), "clear only when the marker writes returned Ok")
+            ob.must_hold(idx_of(p, c) == max(idx_of(p, x) for x in p.events if x.kind == "call"), "the journal clear is the last step")
+    ob.must_hold(reached >= 1, "the clear site was reached")
+    return ob.result(it)
+
+
+def site_journal_write(fns, name):
+    f = mir.find(fns, "::" + name, IO_HINT)
+    ob = Ob("site_" + name, "%s: the next (generation+1, other slot) image is written to that slot's sector and fsynced BEFORE the in-memory generation/slot "
+            "advance; any failure leaves generation and slot untouched – so a torn journal write always leaves the previous valid slot and the next attempt "
+            "targets the same slot again" % name, "all paths", f)
+    it = Interp(f, loop_bound=1, pure=PURE + ("DiskIO::journal_sector",))
+    reached = 0
+    for p in it.run():
+        ob.paths += 1
+        if p.status != "return":
+            continue
+        NP = events(p, "DiskIO::next_journal_position")
+        Wr = events(p, "DiskIO::write_sectors_sync")
+        Fl = events(p, "DiskIO::flush")
+        St = events(p, "Atomic::store")
+        JS = events(p, "DiskIO::journal_sector")
+        if St:
+            reached += 1
+            ob.must_hold(len(Wr) == 1 and len(Fl) == 1 and len(NP) == 1 and len(St) == 2, "one write, one fsync, then generation and slot are stored")
+            if Wr and Fl and NP:
+                ob.must_hold(idx_of(p, Wr[0]) < idx_of(p, Fl[0]) < idx_of(p, St[0]), "write < fsync < advance")
+                ob.need(it, St[0].pc, z3.And(okd(it, Wr[0]), okd(it, Fl[0])), "generation/slot advance only when write and fsync returned Ok")
+                pos = it.ctx.uf("proj_Ok_0", [U], U)(it.as_u(NP[0].ret))
+                gen = it.ctx.uf("proj__0", [U], z3.BitVecSort(64))(pos)
+                slot = it.ctx.uf("proj__1", [U], z3.BitVecSort(64))(pos)
+                vals = [e.args[1] for e in St]
+                ob.need(it, p.pc, z3.Or(*[v == gen for v in vals if z3.is_bv(v) and v.size() == 64]), "stored generation is next_journal_position's")
+                if JS:
+                    ob.need(it, p.pc, JS[0].args[1] == slot, "the image goes to next_journal_position's slot")
+                    ob.need(it, p.pc, Wr[0].args[1] == JS[0].ret, "written at that slot's sector")
+        else:
+            ret_err, _ = it.entails(p.pc, it.ctx.disc(it.as_u(p.ret)) != 0)
+            ob.must_hold(ret_err, "returning without advancing generation/slot only with an error")
+    ob.must_hold(reached >= 1, "the advance site was reached")
+    return ob.result(it)
+
+
+def kernel_next_journal_position(fns):
+    f = mir.find(fns, "::next_journal_position", IO_HINT)
+    ob = Ob("c03_next_journal_position", "next_journal_position: generation+1 (overflow -> error), slot' = (slot+1) % 2 – with two slots the image never "
+            "overwrites the slot holding the current valid generation, and generations strictly increase", "all u64 generations, slot in {0,1}", f)
+    it = Interp(f, loop_bound=1, atomic=None, slices=False)
+    reached = 0
+    for p in it.run():
+        ob.paths += 1
+        if p.status != "return":
+            continue
+        loads = events(p, "Atomic::load")
+        if len(loads) == 2 and isinstance(ctx_tup(it, p.ret), mir.Tup):
+            reached += 1
+            t = ctx_tup(it, p.ret)
+            g0, s0 = loads[0].ret, loads[1].ret
+            ob.need(it, p.pc, z3.And(t.fields[0] == g0 + 1, z3.UGT(t.fields[0], g0)), "generation' = generation + 1 without wrap")
+            ob.need(it, p.pc + [z3.ULE(s0, 1)], z3.And(t.fields[1] == 1 - s0, t.fields[1] != s0), "slot alternates between 0 and 1")
+    ob.must_hold(reached >= 1, "the Ok path was reached")
+    return ob.result(it)
+
+
+def ctx_tup(it, ret):
+    """the tuple wrapped by an Ok(..) return value, if it was built in this function"""
+    return it.ctx.tups.get(str(ret))
+
+
+def site_write_store_metadata(fns):
+    f = mir.find(fns, "::write_store_metadata", IO_HINT)
+    ob = Ob("c10_write_store_metadata", "write_store_metadata: the copy with generation g+1 goes to block 0 when g+1 is even and to the backup block 7 when odd "
+            "(so the previous valid copy is never the one overwritten), write then fsync, and the caller's metadata advances only when both returned Ok",
+            "all generations", f)
+    it = Interp(f, loop_bound=1, pure=PURE + ("Metadata::generation",))
+    reached = 0
+    for p in it.run():
+        ob.paths += 1
+        if p.status != "return":
+            continue
+        Wr = events(p, "DiskIO::write_sectors_sync")
+        Fl = events(p, "DiskIO::flush")
+        G = events(p, "Metadata::generation")
+        for w in Wr:
+            reached += 1
+            ob.must_hold(len(G) >= 1, "the target block is chosen from the new generation")
+            if G:
+                g = G[0].ret
+                ob.need(it, w.pc, w.args[1] == z3.If((g & 1) == 0, z3.BitVecVal(0, 64), z3.BitVecVal(7, 64)), "even generation -> block 0, odd -> block 7")
+        ret_ok, _ = it.entails(p.pc, it.ctx.disc(it.as_u(p.ret)) == 0) if p.ret is not None else (False, None)
+        if ret_ok:
+            ob.must_hold(len(Wr) == 1 and len(Fl) == 1 and idx_of(p, Wr[0]) < idx_of(p, Fl[0]), "Ok only after write then fsync")
+            for e in Wr + Fl:
+                ob.need(it, p.pc, okd(it, e), "Ok only when %s returned Ok" % e.callee.rsplit("::", 1)[-1])
+    ob.must_hold(reached >= 1, "the write site was reached")
+    return ob.result(it)
+
+
+def io_protocol(fns):
+    return [site_retire_extents(fns), site_replay_journal(fns), site_journal_write(fns, "write_allocation_journal"),
+            site_journal_write(fns, "clear_allocation_journal"), kernel_next_journal_position(fns)]
+
+
 # ============================================================================ retirement queue: flush lock discipline
 def site_flush_pending_deletions(fns):
     f = mir.find(fns, "::flush_pending_deletions", None)
@@ -1056,11 +1599,20 @@ def site_flush_pending_deletions(fns):
 
 # ============================================================================ C16: cache accounting deltas
 def c16(fns, tier, env):
-    return finalize([site_cache_insert(fns), site_cache_remove(fns), site_cache_lookups_tagged(fns)], env)
+    return finalize([site_cache_insert(fns), site_cache_remove(fns), site_cache_lookups_tagged(fns), site_evict_running_usage(fns)], env)
 
 
 def c02(fns, tier, env):
-    return finalize([site_flush_pending_deletions(fns)], env)
+    return finalize([site_flush_pending_deletions(fns), site_process_deletions(fns), site_write_batch_protocol(fns)], env)
+
+
+def c09(fns, tier, env):
+    return finalize([site_flush_worker_requeue(fns), site_process_deletions(fns), site_write_batch_protocol(fns), site_retire_extents(fns),
+                     site_journal_write(fns, "write_allocation_journal"), site_journal_write(fns, "clear_allocation_journal")], env)
+
+
+def c10(fns, tier, env):
+    return finalize([site_write_store_metadata(fns), scan_iteration(fns)], env)
 
 
 def c01(fns, tier, env):
@@ -1167,7 +1719,9 @@ def scan_iteration(fns):
     ob = Ob("c03_scan_iteration", "recovery scan, one ARBITRARY iteration (all locals havocked at the loop header): every path that returns to the header has "
             "advanced `sector` (progress, so the scan terminates and never re-reads a block); a path that ACCEPTED a record (it reached version_clock.observe: header "
             "parsed, extent in bounds, token verified) advances by exactly the record's extent length – winner or loser – so the scan never steps into the middle of a "
-            "verified extent (bytes embedded in values cannot surface as keys); every indexed timestamp is folded into the version clock before the index is updated",
+            "verified extent (bytes embedded in values cannot surface as keys); every indexed timestamp is folded into the version clock before the index is updated; newest-timestamp-wins: a verified record is discarded only when an "
+            "indexed generation of its key is newer and indexed only otherwise; when it replaces a generation, the memory, disk and free-space adjustments are computed from the "
+            "REPLACED generation and the additions from the new one",
             "one iteration; inner helper loops unrolled once; calls havocked", f)
     # loop header: the block with the most back-edges whose terminator switches on Lt(sector, total)
     inc = {}
@@ -1195,7 +1749,8 @@ def scan_iteration(fns):
     def init(it_, st):
         st["env"][sector_local] = s0
         st["env"][total_local] = total
-    accepted = 0
+    accepted = discarded = replaced_n = 0
+    ts_idx = record_field_index(fns, "timestamp")
     for p in it.run(init, start=header, stop=(header,)):
         ob.paths += 1
         if p.status == "truncated":
@@ -1212,8 +1767,50 @@ def scan_iteration(fns):
             ob.need(it, p.pc, end == s0 + dc[0].ret, "an accepted record is skipped as a whole extent (sector += sectors_needed)")
         if ups:
             ob.must_hold(bool(obs) and idx_of(p, obs[0]) < idx_of(p, ups[0]), "timestamp folded into the version clock before the index is updated")
+        if not (obs and dc):
+            continue
+        # ---- newest-timestamp-wins and the accounting of the replaced generation
+        rd = [e for e in p.events if e.kind == "call" and e.callee.endswith("HashMap::read") and idx_of(p, e) > idx_of(p, obs[0])]
+        if not rd:
+            continue
+        ex = it.as_u(rd[0].ret)
+        has_ex = it.ctx.disc(ex) == 1
+        existing = it.ctx.uf("proj_Some_0", [U], U)(ex)
+        ex_ts = it.ctx.uf("proj__%d" % ts_idx, [U], z3.BitVecSort(64))(existing)
+        ts_new = obs[0].args[2]
+        newer_exists = z3.And(has_ex, z3.UGT(ex_ts, ts_new))
+        if not ups:
+            discarded += 1
+            ob.need(it, p.pc, newer_exists, "a verified record is discarded only when an already indexed generation of its key has a NEWER timestamp")
+        else:
+            ob.need(it, p.pc, z3.Not(newer_exists), "a record is indexed only when no indexed generation of its key is newer")
+            subs_mem = [e for e in p.events if e.kind == "call" and "Atomic::<usize>::fetch_sub" in getattr(e, "raw", "")]
+            subs_disk = [e for e in p.events if e.kind == "call" and "Atomic::<u64>::fetch_sub" in getattr(e, "raw", "")]
+            adds_mem = [e for e in p.events if e.kind == "call" and "Atomic::<usize>::fetch_add" in getattr(e, "raw", "")]
+            adds_disk = [e for e in p.events if e.kind == "call" and "Atomic::<u64>::fetch_add" in getattr(e, "raw", "")]
+            adds_cnt = [e for e in p.events if e.kind == "call" and "Atomic::<u32>::fetch_add" in getattr(e, "raw", "")]
+            replaced, _ = it.entails(p.pc, has_ex)
+            fresh, _ = it.entails(p.pc, z3.Not(has_ex))
+            if replaced:
+                replaced_n += 1
+                ob.must_hold(len(subs_mem) == 1 and len(subs_disk) == 1 and not adds_cnt, "replacing a generation: one memory and one disk decrement, record count unchanged")
+                for e in subs_mem + subs_disk:
+                    ob.must_hold(contains(e.args[1], ex), "the decrement is computed from the REPLACED generation (%s)" % getattr(e, "raw", "")[-28:])
+                rel = [e for e in events(p, "FreeSpaceManager::release_sectors") if idx_of(p, e) < idx_of(p, ups[0])]
+                ob.must_hold(bool(rel) and contains(rel[0].args[2], ex), "the replaced generation's extent length is released")
+            elif fresh:
+                ob.must_hold(not subs_mem and not subs_disk and len(adds_cnt) == 1, "a new key: no decrement, record count + 1")
+            crs = events(p, "::calculate_record_size")
+            if adds_mem and crs:
+                ob.need(it, p.pc, adds_mem[-1].args[1] == crs[-1].ret, "memory_usage += calculate_record_size of the indexed record")
+                ob.must_hold(not contains(crs[-1].ret, ex), "the added size is the NEW record's")
+            if adds_disk:
+                ob.need(it, p.pc, adds_disk[-1].args[1] == dc[0].ret * z3.BitVecVal(4096, 64), "disk_usage += sectors_needed * 4096")
     ob.must_hold(accepted >= 2, "accepted-record paths (winner and loser) were reached")
-    return ob.result(it, witness="c03_scan_skips_whole_extents")
+    ob.must_hold(discarded >= 1 and replaced_n >= 1, "the discard and the replace paths were reached")
+    return ob.result(it, witness=[("usize>::fetch_sub", "c13_recovery_accounting"), ("u64>::fetch_sub", "c10_recovery_disk_usage"),
+                                  ("discarded only", "c11_recovery_expired_winner"), ("indexed only", "c11_recovery_expired_winner"),
+                                  ("whole extent", "c03_scan_skips_whole_extents"), ("", "c03_scan_skips_whole_extents")])
 
 
 # ============================================================================ common tail
